@@ -294,17 +294,26 @@ def analyse(pid, r, ops, obs, mod, mon, st, build):
     # monitors are quadratic in the number of slots)
     mops, mobs = ops, obs
     if len(ops_l) > 20000:
-        first = next((i for i in range(min(len(obs_l), len(mod_l))) if obs_l[i] != mod_l[i]), None)
-        if first is not None and first + 400 < len(ops_l):
+        # per history: once implementation and model have parted, keep 400 more commands and drop the rest of THAT history
+        starts = [i for i, c in enumerate(ops_l) if c.startswith("hist ")] + [len(ops_l)]
+        keep, cut_any = [], False
+        for a_, b_ in zip(starts, starts[1:]):
+            f = next((i for i in range(a_, min(b_, len(obs_l), len(mod_l))) if obs_l[i] != mod_l[i]), None)
+            if f is not None and f + 400 < b_:
+                keep.append((a_, f + 400, True)); cut_any = True
+            else:
+                keep.append((a_, b_, False))
+        if cut_any:
             mops, mobs = ops + ".cut", obs + ".cut"
-            raw = [l.rstrip("\n") for l in open(ops, errors="replace")]
-            keep, n = [], 0
-            for l in raw:
-                keep.append(l)
-                if l.strip() and not l.startswith("#"): n += 1
-                if n >= first + 400: break
-            open(mops, "w").write("\n".join(keep + ["end"]) + "\n")
-            open(mobs, "w").write("\n".join(obs_l[:first + 400]) + "\n")
+            kops, kobs = [], []
+            for a_, b_, was_cut in keep:
+                for i in range(a_, b_):
+                    kops.append(ops_l[i])
+                    if i < len(obs_l): kobs.append(obs_l[i])
+                if was_cut:
+                    kops.append("end"); kobs.append("x")
+            open(mops, "w").write("\n".join(kops) + "\n")
+            open(mobs, "w").write("\n".join(kobs) + "\n")
     rc, out = sh([RUNNER, "--ops", mops, "--monitor", mobs, "--out", mon], timeout=1200)
     if rc == 124:
         open(mon, "a").write("")
@@ -694,7 +703,7 @@ def write_evidence(pid, tier, seed, proof, audit, results, extra, wall, violatio
         for k in ("obligations", "discharged"):
             if cov[k] == 0: del cov[k]
     ev = {"property_id": pid, "tier": tier, "seed": seed, "level": level, "coverage": cov,
-          "assumptions": ["the Gallina model mirrors the Rust code function by function; this is validated, not proved, by the correspondence run recorded here",
+          "assumptions": ["the hand-written Gallina model is tied to the Rust text in two ways: (a) 56 functions (mutating core, allocation, iterator machines, the printer's line-state machine) are regenerated from the sources on every run by rs2coq and proved equal to / refined by the model (SRC_* obligations listed above; trusted: the translation rules, DESIGN.md 5.1b); every other function body and every item declaration is pinned verbatim (INV* obligations); (b) the correspondence run recorded here (validation by differential testing, not a proof)",
                           "usize arithmetic is unbounded in the model (fewer than 2^64 nodes)",
                           "refinement theorems are stated for release semantics (dbg=false); proofs/DebugProofs.v (debug_agrees) transfers them to debug builds; both profiles are run by the correspondence check"],
           "wall_s": round(wall, 2), "violations": violations}
